@@ -1,4 +1,5 @@
 import HdVerif.Proofs.Affine
+import HdVerif.Generated.T13w
 /-! # C10  Coordinate transforms are mutually consistent and invertible
 
 Property theorems only (helper lemmas live in `Proofs/Affine.lean`).  The statements are about the model
@@ -524,6 +525,16 @@ theorem helper_coordinate_roundtrip (P : Plane) (h : P.Valid) {sbs : Rat} (hs : 
   have h0 : roundHalfEven 0 = 0 := by have := roundHalfEven_intCast 0; simpa using this
   simp only [mapCoordinateIntoPixelMatrix, refToPixRounded, hp, bind, Except.bind, pure, Except.pure,
     roundHalfEven_intCast, h0]
+
+/-! ## the helpers never write into their arguments -/
+
+/-- **no in-place store into a caller-owned object**: the table of statements of the coordinate helpers (37 functions of
+`spatial.py`, regenerated from the source by a may-alias analysis on every run, target T13w) that store in place — augmented
+assignment, subscript / attribute store, `out=`, mutating method — into a parameter or into something that may be a view of one
+(`np.asarray`, `np.array(copy=False)`, `.T`, `.reshape`, a subscript …) is empty.  Together with the oracle's
+call-twice-and-compare-the-arguments check this carries "transformers and matrices depend only on the given values". -/
+theorem helpers_never_write_arguments : Gen.argumentWrites = [] ∧ Gen.argumentWritesScanned = 37 := by
+  decide
 
 /-! ## non-vacuity: the hypotheses are satisfiable by concrete non-trivial inputs -/
 
